@@ -301,14 +301,9 @@ Proof.
       + eapply root_col_B; eauto. }
   cbn [rbt] in Hz. destruct Hz as (Hl & Hr & Hblr & Hred).
   destruct l as [|lc ll lk lv lr].
-  - apply Hone; auto.
-    + cbn in Hblr. lia.
-    + intros E. now destruct (Hred E).
-    + rewrite bh_T. cbn [bh] in *. lia.
+  - apply Hone; [exact Hr | cbn in Hblr; lia | intros E; now destruct (Hred E) | rewrite bh_T; cbn [bh] in *; lia].
   - destruct r as [|rc rl rk rv rr].
-    + apply Hone; auto.
-      * intros E. now destruct (Hred E).
-      * rewrite bh_T. lia.
+    + apply Hone; [exact Hl | rewrite Hblr; reflexivity | intros E; now destruct (Hred E) | rewrite bh_T; lia].
     + destruct (min_ctx rc rl rk rv rr []) as [[[[yc yk] yv] yr] ci] eqn:E.
       apply min_ctx_spec in E. destruct E as (E1 & cj & Eci & E2). rewrite app_nil_r in Eci. subst ci.
       change (plug (T rc rl rk rv rr) []) with (T rc rl rk rv rr) in E1.
